@@ -128,6 +128,10 @@ def mutate(r, x, hostile, d=0):
 
 
 FORCED = [
+    # a key renamed to a name of the same length while the mapping gains / loses a large entry: the matcher separates the
+    # candidate pairs without ever tightening the chosen one, so the pair is printed while its edit is still [0, n]
+    ({"name": "bob"}, {"nome": "bob", "d": [1, 2, 3, 4]}), ({"aaa": {}, "x": ""}, {"x": "", "baa": [], "aaaa": {"a": ["aa"]}}),
+    ({"ab": 1}, {"ac": 1, "zzzz": [1, 2, 3, 4, 5, 6]}), ({"key": "v", "big": [1, 2, 3, 4, 5]}, {"kez": "v"}),
     ("abc", "abd"), ("a", "b"), ("", "a"), ("hello", "help"), ('"', "\\"), ('a"b', 'a"c'), (STRIKE, UPLUS),
     ("x" + STRIKE, "x" + UPLUS + "y"), ("\U0001F600", "\U0001F601"), ("\x00\x1f", "\x00\x7f"), (" -> ", "->"),
     ("~~a~~", "++a++"), ([1, 2, 3], [1, 5]), ([1, 2], [1, 2, 3, 4]), ([], []), ([], [1]), ([1], []), ({}, {}),
@@ -198,6 +202,15 @@ def gen(rng, tier):
     for _ in range(n // 6):
         a, b = S.collide(rng, gen_doc(rng, rng.choice([0.0, 0.3])))
         cases.append({"f": a, "t": b, "opts": rng.choice(OPT_SETS), "jl": rng.random() < 0.5, "jd": rng.random() < 0.5})
+    for _ in range(n // 8):
+        k = "".join(rng.choice("abk") for _ in range(rng.randint(2, 5)))
+        k2 = k[:-1] + rng.choice("xyz")
+        v = rng.choice([1, "v", "bob", [1], {"q": 1}])
+        big = rng.choice([[1, 2, 3, 4], {"a": ["aa"], "b": 2}, "a long string value", [[1, 2], [3, 4]]])
+        a, b = {k: v}, {k2: v, rng.choice(["d", "zz", "extra"]): big}
+        if rng.random() < 0.4:
+            a, b = b, a
+        cases.append({"f": a, "t": b, "opts": rng.choice(OPT_SETS[:3]), "jl": rng.random() < 0.5, "jd": rng.random() < 0.5})
     for _ in range(n // 8):
         a = gen_doc(rng, rng.choice([0.0, 0.5, 1.0]))
         cases.append({"f": a, "t": S.shuffled(rng, a), "opts": rng.choice(OPT_SETS), "jl": rng.random() < 0.5,
